@@ -114,11 +114,13 @@ def merge_best(check, results):
 
 class CutPolicy:
     """Like net.ChooserPolicy, but a recv that could return any prefix offers only: everything
-    (default), 1 byte, half, all but one byte.  Every non-default answer costs `cost`."""
+    (default), 1 byte, half, all but one byte (`cuts` selects among "one", "half", "allbut1").
+    Every non-default answer costs `cost`."""
 
-    def __init__(self, chooser, cost=1):
+    def __init__(self, chooser, cost=1, cuts=("one", "half", "allbut1")):
         self.ch = chooser
         self.cost = cost
+        self.cuts = tuple(cuts)
 
     def decide(self, sock, op, cands):
         if len(cands) == 1:
@@ -126,7 +128,9 @@ class CutPolicy:
         if op == "recv" and cands[0][0] == "n":
             full = cands[0][1]
             keep = [0]
-            for k in (1, full // 2, full - 1):
+            for name, k in (("one", 1), ("half", full // 2), ("allbut1", full - 1)):
+                if name not in self.cuts:
+                    continue
                 a = ("n", k)
                 if 0 < k < full and a in cands:
                     i = cands.index(a)
